@@ -3,5 +3,5 @@ CONSTANTS
   FinalRule = "buffer_nonempty"
   BCfgSet <- Cfgs
 INVARIANTS OrderInv DoneInv
-PROPERTY Terminates
+PROPERTIES Terminates RefinesOrderedRows
 CHECK_DEADLOCK FALSE
